@@ -61,46 +61,39 @@ func c10Gen(tier string, rng *rand.Rand, emit func(string)) map[string]interface
 	stats := map[string]int{}
 	out := func(kind, line string) { stats[kind]++; emit(line) }
 
-	// (1) bounded-exhaustive: k subscribers x all scripts of <= 2 re-entrant actions, two publishes
-	full := 3
-	if thorough {
-		full = 4
-	}
+	// (1) bounded-exhaustive: 1..3 subscribers x all scripts of <= 2 re-entrant actions, two publishes;
+	// 4 subscribers: all scripts of <= 1 action, plus a sample of the <= 2 space (5 subscribers: sample, thorough)
 	scripts2 := c10Scripts(2)
-	var rec func(k int, toks []string)
-	for n := 1; n <= full; n++ {
-		rec = func(k int, toks []string) {
-			if k == n {
-				out("exhaustive", "seq: "+strings.Join(toks, " ; ")+" ; p:1 ; c ; p:2 ; c")
-				return
-			}
-			for _, s := range scripts2 {
-				rec(k+1, append(append([]string{}, toks...), c10SubTok(s)))
-			}
+	scripts1 := c10Scripts(1)
+	tail := " ; p:1 ; c ; p:2 ; c"
+	var rec func(n, k int, alphabet []string, toks []string)
+	rec = func(n, k int, alphabet []string, toks []string) {
+		if k == n {
+			out("exhaustive", "seq: "+strings.Join(toks, " ; ")+tail)
+			return
 		}
-		rec(0, nil)
+		for _, s := range alphabet {
+			rec(n, k+1, alphabet, append(append([]string{}, toks...), c10SubTok(s)))
+		}
 	}
-	if !thorough {
-		// 4 subscribers: all scripts of <= 1 action, plus a sample of the <= 2 space
-		scripts1 := c10Scripts(1)
+	for n := 1; n <= 3; n++ {
+		rec(n, 0, scripts2, nil)
+	}
+	rec(4, 0, scripts1, nil)
+	sample4, sample5 := 3000, 0
+	if thorough {
+		sample4, sample5 = 100000, 30000
+	}
+	for i := 0; i < sample4+sample5; i++ {
 		n := 4
-		rec = func(k int, toks []string) {
-			if k == n {
-				out("exhaustive", "seq: "+strings.Join(toks, " ; ")+" ; p:1 ; c ; p:2 ; c")
-				return
-			}
-			for _, s := range scripts1 {
-				rec(k+1, append(append([]string{}, toks...), c10SubTok(s)))
-			}
+		if i >= sample4 {
+			n = 5
 		}
-		rec(0, nil)
-		for i := 0; i < 3000; i++ {
-			toks := make([]string, 4)
-			for k := range toks {
-				toks[k] = c10SubTok(scripts2[rng.Intn(len(scripts2))])
-			}
-			out("sampled4", "seq: "+strings.Join(toks, " ; ")+" ; p:1 ; c ; p:2 ; c")
+		toks := make([]string, n)
+		for k := range toks {
+			toks[k] = c10SubTok(scripts2[rng.Intn(len(scripts2))])
 		}
+		out("sampled", "seq: "+strings.Join(toks, " ; ")+tail)
 	}
 
 	// (2) random longer histories on one publisher
@@ -337,7 +330,7 @@ func c10Gen(tier string, rng *rand.Rand, emit func(string)) map[string]interface
 
 	res := map[string]interface{}{
 		"exhaustive": false,
-		"exhaustive_scope": fmt.Sprintf("1..%d subscribers x all callback scripts of <= 2 actions over {n,u0,u-1,u+1,p}, two publishes each", full),
+		"exhaustive_scope": "1..3 subscribers x all callback scripts of <= 2 actions over {n,u0,u-1,u+1,p} (4 subscribers: <= 1 action), two publishes each",
 	}
 	for k, v := range stats {
 		res["cases_"+k] = v
